@@ -124,7 +124,7 @@ Definition a_declared (first : option (option bytes * bool)) (cl : option Z)
   let all := sbody (first_events first ++ events) in
   match cl with
   | Some n => takeZ n all
-  | None => takeZ (len (match first with Some (Some b, _) => b | _ => [] end) + two63) all
+  | None => takeZ (len (first_chunk first) + two63) all
   end.
 
 (* the server contract: after an event without more_body, or a disconnect, only disconnects *)
@@ -202,6 +202,22 @@ Definition a_check (declared : bytes) (p : Z) (live noex : bool) (o : aobs) : li
    domain from that operation on.  [susp] tracks "an iteration is suspended" from results. *)
 Definition sized_read (op : aop) : bool :=
   match op with ARead (Some n) => negb (n =? -1) && (0 <? n) | _ => false end.
+
+Definition gsusp (g : gstate) : bool :=
+  match g with GAfterBuf | GInLoop _ => true | _ => false end.
+
+(* the same rule as a predicate on histories of the model *)
+Fixpoint disciplined (ops : list aop) (st : ast) : bool :=
+  match ops with
+  | [] => true
+  | op :: tl => negb (gsusp (gen st) && sized_read op)
+                && disciplined tl (snd (astep true op st))
+  end.
+
+Definition keeps_data (op : aop) : bool :=
+  match op with AExhaust | AClose => false | _ => true end.
+Definition not_exhaust (op : aop) : bool :=
+  match op with AExhaust => false | _ => true end.
 
 Definition susp_after (susp : bool) (op : aop) (r : ares) : bool :=
   match op, r with
